@@ -9,6 +9,7 @@ CONSTANTS
   Std <- Std3b
   StdFrom <- NoStdFrom3
   CycEdges <- Cyc3
+  FailMode = "none"
   Fuel = 5
 INVARIANTS Accounting TeardownOnlyWhenQuiet LatchOnlyWhenQuiet NoWorkLost OrderedTeardown
 PROPERTIES Termination
